@@ -1,5 +1,6 @@
 import HcipyVerif.Model.Proto
 import HcipyVerif.Model.Zernike
+import HcipyVerif.Model.ZernikeArr
 
 /-!
 Line-protocol front end of the C13 model.
@@ -17,7 +18,22 @@ C13 basis ansi start num  -> ok n:m,…            modes of make_zernike_basis(n
 C13 normsq n m            -> ok q                (n+1)·(2 if m≠0)
 C13 radial n m r          -> ok q                zernike_radial (repaired)
 C13 radialold n m r       -> ok q | nan          unrepaired recurrence (n-|m| even, |m| ≤ n)
+C13 abasis ansi start num cut cache D  -> ok n:m=[q…]|…   `basisA` (make_zernike_basis with a grid, array-level cache model) on the
+                                                 stored polar / separated grid: one column per mode, with the mode it is
+C13 ptsB                                         the stored grid becomes grid B (a later `pts …` stores grid A)
+C13 gens shared|own D n:m:cut:k,…  -> ok [q…]|[q…]|…   `runGensA`: generator calls on grid A (k = 0) or B (k = 1), in order; `own` = the
+                                                 generators hold no cache (the code), `shared` = one cache for all (D130)
+C13 pairs nmax            -> ok n:m,…            `pairs nmax`: the valid (n, m ≥ 0) with n ≤ nmax (the range of `radial_table`)
+C13 poly n m              -> ok [q…]             `radialPoly n |m|`: coefficients (of r^0, r^1, …) the q-recursion produces
+C13 defpoly n m           -> ok [q…]             `radialDef n |m|`: coefficients of the factorial definition
+C13 polyeval n m r        -> ok q                `peval (radialPoly n |m|) r`
+C13 ortho n n' m          -> ok q                `pint01 (pshift 1 (pmul (radialPoly n m) (radialPoly n' m)))` = ∫₀¹ R_n^m R_n'^m r dr
 C13 memo D r c s old|new n:m:cut,…  -> ok [q…]   request history against one cache at one point
+C13 pts sep [R…] [c…] [s…]                       store a separated polar grid (axes R and (cos θ, sin θ)); `mode` then
+                                                 answers in the code's layout (`plainA`: index iθ·nr + ir)
+C13 amemo old|new D n:m:cut,…  -> ok step|step|… array-level cache model (`runA`) on the stored polar / separated grid;
+     step = [result…];+key=val;…;~key=val;…      `+` slot added by this request, `~` slot whose array changed;
+     key = rad.n.m | red.n.m | azim.m, val = s:q (a float) | r<ref>:[q…] (an ndarray, by heap reference)
 ```
 -/
 namespace HcipyVerif.Driver.C13
@@ -26,9 +42,11 @@ open HcipyVerif.Proto HcipyVerif.Zernike
 inductive Pts where
   | polar (p : List (Rat × Rat × Rat))
   | cart (p : List (Rat × Rat))
+  | sep (R : List Rat) (dirs : List (Rat × Rat))
 
 structure St where
   pts : Pts := .cart []
+  ptsB : Pts := .cart []
 
 def showPair (p : Nat × Int) : String := s!"{p.1}:{p.2}"
 
@@ -51,6 +69,31 @@ def parseReq? (s : String) : Option Req :=
   match s.splitOn ":" with
   | [n, m, c] => do pure ⟨← parseNat? n, ← parseInt? m, ← parseBool? c⟩
   | _ => none
+
+def showKey : Key → String
+  | .rad n m => s!"rad.{n}.{m}"
+  | .red n k => s!"red.{n}.{n - 2 * k}"
+  | .azim m => s!"azim.{m}"
+
+def showVal (h : Heap) : Val → String
+  | .scalar v => "s:" ++ showRat v
+  | .ref i => s!"r{i}:" ++ showRatList (h.getD i [])
+
+/-- what a slot denotes (float, or the array behind the reference) -/
+def denote (h : Heap) : Val → Option Rat × List Rat
+  | .scalar v => (some v, [])
+  | .ref i => (none, h.getD i [])
+
+/-- slots added (`+`) and slots whose content changed (`~`) between two states -/
+def showDelta (a b : AState) : List String :=
+  b.cache.reverse.filterMap fun (k, v) =>
+    match a.getC k with
+    | none => some ("+" ++ showKey k ++ "=" ++ showVal b.heap v)
+    | some v0 => if denote a.heap v0 == denote b.heap v then none else some ("~" ++ showKey k ++ "=" ++ showVal b.heap v)
+
+def showSteps : AState → List (Arr × AState) → List String
+  | _, [] => []
+  | st, (z, st') :: rest => ";".intercalate (showRatList z :: showDelta st st') :: showSteps st' rest
 
 def step (st : St) : List String → St × String
   | ["reset"] => ({}, "ok")
@@ -89,6 +132,25 @@ def step (st : St) : List String → St × String
       | some p => ({ st with pts := .polar p }, "ok")
       | none => (st, "bad-op")
     | _, _, _ => (st, "bad-op")
+  | ["pts", "sep", rs, cs, ss] =>
+    match parseRatList? rs, parseRatList? cs, parseRatList? ss with
+    | some rs, some cs, some ss =>
+      match zip2 cs ss with
+      | some d => ({ st with pts := .sep rs d }, "ok")
+      | none => (st, "bad-op")
+    | _, _, _ => (st, "bad-op")
+  | ["amemo", which, D, reqs] =>
+    match parseRat? D, (reqs.splitOn ",").mapM parseReq? with
+    | some D, some reqs =>
+      if D = 0 || reqs.any (fun q => !valid q.n q.m) then (st, "err value") else
+      let g? : Option AGrid := match st.pts with
+        | .polar p => some (.pts (p.map (·.1)) (p.map fun t => (t.2.1, t.2.2)))
+        | .sep R d => some (.sep R d)
+        | .cart _ => none
+      match g?, (if which == "new" then some false else if which == "old" then some true else none) with
+      | some g, some old => (st, "ok " ++ "|".intercalate (showSteps {} (runA old D g reqs {})))
+      | _, _ => (st, "bad-op")
+    | _, _ => (st, "bad-op")
   | ["pts", "cart", xs, ys] =>
     match parseRatList? xs, parseRatList? ys with
     | some xs, some ys =>
@@ -103,6 +165,7 @@ def step (st : St) : List String → St × String
       let out := match st.pts with
         | .polar p => p.map fun (r, c, s) => modeQCut n m D r c s cut
         | .cart p => p.map fun (x, y) => modeQXYCut n m D x y cut
+        | .sep R d => plainA D (.sep R d) ⟨n, m, cut⟩
       (st, "ok " ++ showRatList out)
     | _, _, _, _ => (st, "bad-op")
   | ["basis", ansi, start, num] =>
@@ -119,6 +182,60 @@ def step (st : St) : List String → St × String
     match parseNat? n, parseInt? m, parseRat? r with
     | some n, some m, some r =>
       if !valid n m then (st, "err value") else (st, "ok " ++ showRat (radialEval n m.natAbs r))
+    | _, _, _ => (st, "bad-op")
+  | ["abasis", ansi, start, num, cut, cache, D] =>
+    match parseBool? ansi, parseNat? start, parseNat? num, parseBool? cut, parseBool? cache, parseRat? D with
+    | some ansi, some start, some num, some cut, some cache, some D =>
+      if D = 0 || (!ansi && start = 0) then (st, "err value") else
+      let g? : Option AGrid := match st.pts with
+        | .polar p => some (.pts (p.map (·.1)) (p.map fun t => (t.2.1, t.2.2)))
+        | .sep R d => some (.sep R d)
+        | .cart _ => none
+      match g? with
+      | some g =>
+        let cols := basisA ansi start num D g cut cache
+        let modes := basisModes ansi start num
+        (st, "ok " ++ "|".intercalate ((modes.zip cols).map fun (nm, z) => showPair nm ++ "=" ++ showRatList z))
+      | none => (st, "bad-op")
+    | _, _, _, _, _, _ => (st, "bad-op")
+  | ["ptsB"] => ({ st with ptsB := st.pts }, "ok")
+  | ["gens", which, D, calls] =>
+    let parseCall? (c : String) : Option (Req × Nat) :=
+      match c.splitOn ":" with
+      | [n, m, cut, k] => do pure (⟨← parseNat? n, ← parseInt? m, ← parseBool? cut⟩, ← parseNat? k)
+      | _ => none
+    let grid? : Pts → Option AGrid
+      | .polar p => some (.pts (p.map (·.1)) (p.map fun t => (t.2.1, t.2.2)))
+      | .sep R d => some (.sep R d)
+      | .cart _ => none
+    match parseRat? D, (calls.splitOn ",").mapM parseCall?, grid? st.pts, grid? st.ptsB,
+        (if which == "own" then some false else if which == "shared" then some true else none) with
+    | some D, some calls, some gA, some gB, some shared =>
+      if D = 0 || calls.any (fun c => !valid c.1.n c.1.m) then (st, "err value") else
+      (st, "ok " ++ "|".intercalate ((runGensA shared D (calls.map fun c => (if c.2 = 0 then gA else gB, c.1)) {}).map showRatList))
+    | _, _, _, _, _ => (st, "bad-op")
+  | ["pairs", nmax] =>
+    match parseNat? nmax with
+    | some nmax => (st, "ok " ++ ",".intercalate ((pairs nmax).map fun (n, m) => s!"{n}:{m}"))
+    | none => (st, "bad-op")
+  | ["poly", n, m] =>
+    match parseNat? n, parseInt? m with
+    | some n, some m => if !valid n m then (st, "err value") else (st, "ok " ++ showRatList (radialPoly n m.natAbs))
+    | _, _ => (st, "bad-op")
+  | ["defpoly", n, m] =>
+    match parseNat? n, parseInt? m with
+    | some n, some m => if !valid n m then (st, "err value") else (st, "ok " ++ showRatList (radialDef n m.natAbs))
+    | _, _ => (st, "bad-op")
+  | ["polyeval", n, m, r] =>
+    match parseNat? n, parseInt? m, parseRat? r with
+    | some n, some m, some r =>
+      if !valid n m then (st, "err value") else (st, "ok " ++ showRat (peval (radialPoly n m.natAbs) r))
+    | _, _, _ => (st, "bad-op")
+  | ["ortho", n, n', m] =>
+    match parseNat? n, parseNat? n', parseNat? m with
+    | some n, some n', some m =>
+      if !valid n m || !valid n' m then (st, "err value") else
+      (st, "ok " ++ showRat (pint01 (pshift 1 (pmul (radialPoly n m) (radialPoly n' m)))))
     | _, _, _ => (st, "bad-op")
   | ["radialold", n, m, r] =>
     match parseNat? n, parseInt? m, parseRat? r with
